@@ -381,6 +381,25 @@ def check_generated_codecs(ctx):
     ctx.floor('generated decode / encode sites', n_read + n_write, 2)
 
 
+def check_surroundings(ctx):
+    """Round 5.  What stands between the codec and the caller:
+    (g) an encode failure leaves pack() as PacketError -- the pack drivers convert every failure of
+        a field's pack (C12 handlers; a narrower handler in front of the catch-all lets failures
+        of that class escape);
+    (h) an Int handed out by a run-time selector (Ref with a callable) is configured the same way
+        for decoding and for encoding (C08-ref sibling rule: same byte-order defaults);
+    (i) the byte order of a struct block only shows in the generated text ('<' / '>' prefix): the
+        cookie that lets a cached module be reused covers that text (C15 H)"""
+    from .. import drivers as D
+    for d in D.get_drivers(ctx.repo):
+        if d.kind == 'pack':
+            D.check_handlers(ctx, 'R9-encode-failure-surfaces', d)
+    from .c08 import check_ref
+    check_ref(ctx, ctx.repo.cls('Ref'))
+    from .c15 import check_hash_covers_generated_code
+    check_hash_covers_generated_code(ctx, 'R9-generated-code-is-current')
+
+
 def check(ctx):
     repo = ctx.repo
     ci = repo.cls('Int')
@@ -395,6 +414,7 @@ def check(ctx):
     check_struct_block(ctx)
     check_single_source(ctx)
     check_generated_codecs(ctx)
+    check_surroundings(ctx)
     ctx.floor('strategy pairs of Int', ctx.units.get('strategy_pairs', 0), 2)
     ctx.floor('endianness fold cases', sum(1 for o in ctx.obs if o.rule == 'R9-endianness-fold'), 9)
     from ..model import check_conf_plumbing
